@@ -87,6 +87,10 @@ type xmlParser struct {
 	nsPos      int
 	attrs      []XmlAttribute
 	attrPos    int
+	// A token that was read ahead while merging character data.
+	pending xml.Token
+	// The number of open elements.
+	depth int
 }
 
 func (x *xmlParser) Pull() (node.Node, bool, error) {
@@ -108,37 +112,96 @@ func (x *xmlParser) Pull() (node.Node, bool, error) {
 	x.attrPos = 0
 	x.namespaces = emptyXmlNamespaces
 	x.nsPos = 0
-	tok, err := x.xmlReader.Token()
 
-	if err != nil {
-		return nil, false, err
+	for {
+		tok := x.pending
+		x.pending = nil
+
+		if tok == nil {
+			var err error
+			tok, err = x.xmlReader.Token()
+
+			if err != nil {
+				return nil, false, err
+			}
+		}
+
+		switch n := tok.(type) {
+		case xml.StartElement:
+			x.depth++
+			x.namespaces = createXmlNamespaces(n.Attr)
+			x.attrs = createXmlAttrs(n.Attr)
+			return XmlElement{
+				space: n.Name.Space,
+				local: n.Name.Local,
+			}, false, nil
+		case xml.EndElement:
+			x.depth--
+			return nil, true, nil
+		case xml.CharData:
+			// A CDATA section, and the text around it, are reported as
+			// separate tokens; in the data model they are one text node.
+			value := string(n)
+
+			for {
+				next, err := x.xmlReader.Token()
+
+				if err != nil {
+					if err != io.EOF {
+						return nil, false, err
+					}
+
+					break
+				}
+
+				more, ok := next.(xml.CharData)
+
+				if !ok {
+					x.pending = xml.CopyToken(next)
+					break
+				}
+
+				value += string(more)
+			}
+
+			// The white space between the items of the prolog and epilog
+			// is not part of the data model.
+			if x.depth == 0 && isXmlWhitespace(value) {
+				continue
+			}
+
+			return XmlCharData{
+				value: value,
+			}, false, nil
+		case xml.Comment:
+			return XmlComment{
+				value: (string)(n),
+			}, false, nil
+		case xml.ProcInst:
+			// The XML declaration is not a processing instruction.
+			if n.Target == "xml" {
+				continue
+			}
+
+			return XmlProcInst{
+				target: n.Target,
+				value:  string(n.Inst),
+			}, false, nil
+		}
+
+		// xml.Directive (a document type declaration) is not part of the
+		// data model.
+	}
+}
+
+func isXmlWhitespace(s string) bool {
+	for i := 0; i < len(s); i++ {
+		if s[i] != ' ' && s[i] != '\t' && s[i] != '\r' && s[i] != '\n' {
+			return false
+		}
 	}
 
-	switch n := tok.(type) {
-	case xml.StartElement:
-		x.namespaces = createXmlNamespaces(n.Attr)
-		x.attrs = createXmlAttrs(n.Attr)
-		return XmlElement{
-			space: n.Name.Space,
-			local: n.Name.Local,
-		}, false, nil
-	case xml.CharData:
-		return XmlCharData{
-			value: (string)(n),
-		}, false, nil
-	case xml.Comment:
-		return XmlComment{
-			value: (string)(n),
-		}, false, nil
-	case xml.ProcInst:
-		return XmlProcInst{
-			target: n.Target,
-			value:  string(n.Inst),
-		}, false, nil
-	}
-
-	//case xml.EndElement:
-	return nil, true, nil
+	return true
 }
 
 func createXmlNamespaces(attrs []xml.Attr) []XmlNamespace {
@@ -152,21 +215,24 @@ func createXmlNamespaces(attrs []xml.Attr) []XmlNamespace {
 
 	for _, i := range attrs {
 		if i.Name.Space == "" && i.Name.Local == xmlns {
-			ns = XmlNamespace{
+			// xmlns="uri"
+			ret = append(ret, XmlNamespace{
 				prefix: "",
 				value:  i.Value,
-			}
-
-			ret = append(ret, ns)
-		}
-
-		if i.Name.Local == xmlns {
-			ns = XmlNamespace{
+			})
+		} else if i.Name.Space == xmlns {
+			// xmlns:prefix="uri"
+			ret = append(ret, XmlNamespace{
+				prefix: i.Name.Local,
+				value:  i.Value,
+			})
+		} else if i.Name.Local == xmlns {
+			// prefix:xmlns="uri", which earlier versions of this package
+			// took for a namespace declaration.
+			ret = append(ret, XmlNamespace{
 				prefix: i.Name.Space,
 				value:  i.Value,
-			}
-
-			ret = append(ret, ns)
+			})
 		}
 	}
 
